@@ -9,7 +9,7 @@
 (* whose spellings, concatenated, are the statement text.                                          *)
 (* TLC checks Skeleton(variant) = Skeleton(base) and Skeleton(mutant) # Skeleton(base), and emits   *)
 (* each text with Rejected(text, Blacklist).                                                       *)
-(*   thorough: every variant (3 casings x 5 gap styles x 4 literal choices x (no comment or one of   *)
+(*   thorough: every variant (3 casings x 7 gap styles x 4 literal choices x (no comment or one of   *)
 (*   5 comment styles at every token gap)) of 12 base statements, and 5 mutants x 8 spellings;       *)
 (*   quick: every variant with at most two non-default dimensions plus a sample selected by Seed.    *)
 EXTENDS StmtPolicy, TLC, Json, SequencesExt
@@ -57,7 +57,7 @@ Bases == <<
 Blacklisted == 1..10
 
 (* ---- variants ---- *)
-GapStyles == {"one", "two", "tab", "newline", "tight"}
+GapStyles == {"one", "two", "tab", "newline", "crlf", "cr", "tight"}
 CmStyles  == {"none", "spaced", "glued", "dash", "hash", "sqlish"}
 LitChoices == 1..4
 
@@ -69,6 +69,8 @@ GapText(style, a, b) == CASE style = "one" -> " "
                           [] style = "two" -> "  "
                           [] style = "tab" -> "\t"
                           [] style = "newline" -> "\n"
+                          [] style = "crlf" -> "\r\n"
+                          [] style = "cr" -> "\r"
                           [] OTHER -> IF Tightable(a, b) THEN "" ELSE " "
 
 CmText(style) == CASE style = "spaced" -> " /* c */ "
